@@ -17,7 +17,8 @@ MANIFEST = {
           'exactly what the broker served at that epoch), C07_converge (any reachable state, any broker-quiet restart-free tail whatever else '
           'happens in it: once a call carrying the current view arrived the proxy holds exactly the current view), C07_converge_one_round (ONE complete '
           'fault-free meta-sync round of the compiled code from any reachable state, anything still in flight), C07_commit_at_most_once, '
-          'C07_duplicate_commit_rejected, C07_commit_exactly_once, C07_two_rounds (bound TWO: one migration-sync round then one meta-sync round => every '
+          'C07_duplicate_commit_rejected, C07_commit_exactly_once, C07_dst_before_src (sync_migration_state under ANY scripted call faults: the source is '
+          'contacted only after the commit request was sent and the destination installed cluster metadata at least as new as the post-commit view), C07_two_rounds (bound TWO: one migration-sync round then one meta-sync round => every '
           'reported pending migration committed exactly once and every listed proxy holds the post-commit view), C13_reconverge (no assumption on the '
           'history; served epochs above installed ones => one round adopts the recovered view).  The broker is abstracted to `served : time -> addr -> '
           'option (epoch * content)`; the ONLY facts assumed are the two hypotheses served_mono_prop / served_same_prop, which are C04\'s theorems about '
@@ -112,7 +113,7 @@ def gen_cases(chk):
         for kk in ([k] if k else KINDS):
             cases.append(('singleB', shape_b({pos: kk}, [(pos + 5, 'replay', pos)] if kk == 'delay' else [], 1 + pos % 5)))
     # random multi-fault scripts
-    nrand = 260 if chk.tier == 'quick' else 4000
+    nrand = 400 if chk.tier == 'quick' else 4000
     for _ in range(nrand):
         a = r.random() < 0.6
         lo, hi = (A_LO, A_HI) if a else (B_LO, B_HI)
@@ -245,24 +246,38 @@ def monitor(case, prog, segs, z):
             if (ep, ch, rh) != (str(want[0]), want[1], want[2]):
                 bad.append('after the fault-free tail proxy %d holds epoch %s cluster %s repl %s, broker serves epoch %d cluster %s repl %s'
                            % (i, ep, ch, rh, want[0], want[1], want[2]))
-        if 'finishmig' in case and z.get('fm') == 'done':
-            if last.get('pend') != '-':
-                bad.append('after the fault-free tail migrations %s are still pending although every proxy had finished them' % last.get('pend'))
-            nstarted = len(set(re.findall(r'adv ([\d,]+)', prog)[0].split(','))) if re.findall(r'adv ([\d,]+)', prog) else 0
-            if int(last.get('nc', '0')) != nstarted:
-                bad.append('%s successful commits for %d finished migrations' % (last.get('nc'), nstarted))
+    # every migration a proxy reported finished during the fault-free tail is committed: exactly one successful commit over the
+    # whole run and not pending at the end (the theorem's statement; a restarted proxy forgets a finished hand-over and, with the
+    # harness gate closed, never reports it again - such a migration legitimately stays pending)
+    tail = False
+    reported_in_tail = set()
+    for s in segs:
+        if s == 'F' and tail is False and 'quiet' in case:
+            # the k-th F segment belongs to quiet iff it is the last F of the run
+            pass
+    qpos = [j for j, st_ in enumerate([x.strip().split(' ')[0] for x in prog.split(' ; P ')[1].split(' | ')]) if st_ == 'quiet']
+    if qpos and last is not None:
+        for s in segs[qpos[-1]:]:
+            tr = kv(s).get('tr', '-')
+            for t in ([] if tr == '-' else tr.split(',')):
+                if t.startswith('p.'):
+                    reported_in_tail.add(t.split('.')[2])
+        pend = set(last.get('pend', '-').split(',')) - {'-'}
+        for k in sorted(reported_in_tail):
+            if k in pend:
+                bad.append('migration %s was reported finished during the fault-free tail and is still pending after it' % k)
+            if commits_ok.get(k, 0) != 1:
+                bad.append('migration %s reported finished during the fault-free tail: %d successful commits' % (k, commits_ok.get(k, 0)))
     if z.get('fm', '-') not in ('-', 'done'):
         bad.append('set-up: the real migration handshake did not finish (%s)' % z.get('fm'))
     if z.get('order', 'ok') != 'ok':
         bad.append('migration-sync path pushed post-commit metadata to the source before the destination: %s' % z.get('order'))
     # routing of the probe key once nothing migrates
     for e in z.get('fin', '').split(','):
-        p = e.split(':')
-        if len(p) >= 4 and p[0].isdigit() and int(p[0]) not in failed:
-            half = (len(p) - 2) // 2
-            got, want = ':'.join(p[2:2 + half]), ':'.join(p[2 + half:])
-            if want != '-' and len(p) % 2 == 0 and got != want:
-                bad.append('proxy %s routes the probe key to %s, broker says %s' % (p[0], got, want))
+        p = e.split('|')
+        if len(p) == 4 and p[0].isdigit() and int(p[0]) not in failed:
+            if p[3] != '-' and p[2] != p[3]:
+                bad.append('proxy %s routes the probe key to %s, broker says %s' % (p[0], p[2], p[3]))
     return bad
 
 
@@ -316,7 +331,7 @@ def run(chk):
     impl, parsed, model = run_both(chk, lines)
     hist, nfail, disagreements = {}, 0, []
     stats = {'faults_reached': 0, 'crashed_rounds': 0, 'old_epoch_replies': 0, 'commit_notfound': 0, 'commit_ok': 0, 'restarts': 0,
-             'stale_accepted_lower_than_current': 0, 'cases_with_migration_commit': 0}
+             'cases_with_migration_commit': 0}
     for i, (kind, c) in enumerate(cases):
         hist[kind] = hist.get(kind, 0) + 1
         o = impl[i] if i < len(impl) else '<no output>'
